@@ -117,4 +117,31 @@ example :
       = [(0, { marked := true, comps := [(0, 8)], hist := some 1 })] := by
   decide
 
+/-- the history of known finding F4: entity 1 carries `A` (component 0, sent every tick) and `P`
+(component 3, sent every third tick); both change after tick 1; tick 2 sends `A` alone (message
+0), which the client acknowledges; four more ticks follow -/
+def f4Ops : List Joint.Op :=
+  [.start, .connect 0 true, .spawn 1 true [(0, 1), (3, 1)], .frame true 10 (fun _ => []),
+   .mutate 1 0 2, .mutate 1 3 2, .frame true 10 (fun _ => [[1]]), .ack 0 [0],
+   .frame true 10 (fun _ => []), .frame true 10 (fun _ => []), .frame true 10 (fun _ => []),
+   .frame true 10 (fun _ => [])]
+
+def f4Start : Joint.St := { srv := { rates := [(0, .every), (3, .periodic 3)] } }
+
+/-- Known finding F4, machine-checked on the model (the implementation replays it:
+`findings/F4.trace`): the acknowledgement of the message that carried `A` alone moves the
+entity's tick past `P`'s change, and `P = 2` is never sent — not at tick 3 or 6, where its
+period fires — although the server holds it.  This is why the convergence theorem for an
+already known client carries the hypothesis `NoPeriodicPending`. -/
+theorem C01_known_finding_F4_witness :
+    ((Joint.run f4Start f4Ops).2.map fun fr => fr.1.map fun o =>
+        (o.2.update.map (fun u => u.changes.map (fun m => (m.ent, m.comps))), o.2.mutEnts.map (fun m => (m.ent, m.comps)))) =
+      [[], [], [], [(some [(1, [(0, 1), (3, 1)])], [])], [], [], [(none, [(1, [(0, 2)])])], [],
+       [(none, [])], [(none, [])], [(none, [])], [(none, [])]] := by
+  rfl
+
+theorem C01_known_finding_F4_server_value :
+    ((Joint.run f4Start f4Ops).1.srv.world.map fun x => (x.1, x.2.comps.map fun c => (c.1, c.2.val))) = [(1, [(3, 2), (0, 2)])] := by
+  rfl
+
 end Replicon.C01
